@@ -182,3 +182,23 @@ package safehtml
 //@   ensures balanced: isnil(err) ==> balanced(rm_cssStringPattern(selector))
 //@   ensures layout: isnil(err) ==> seqeq(r.str, cat(selector, "{", style.str, "}"))
 //@   ensures zero: !isnil(err) ==> len(r.str) == 0
+
+//@ func trustedResourceURLFormat(format string, args map[string]string) (r TrustedResourceURL, err error)
+//@   serves C13
+//@   option uses C13.empty_in_qimg
+//@   ensures prefix: isnil(err) ==> inlang(re_safeTrustedResourceURLPrefixPattern, format)
+//@   ensures unsafe: !inlang(re_safeTrustedResourceURLPrefixPattern, format) ==> !isnil(err) && len(r.str) == 0
+//@   closure 1 (match string) (piece string)
+//@     ensures sticky: !isnil(before(err)) ==> !isnil(err)
+//@     ensures missing: !haskey(args, sub(match, 2, len(match) - 1)) ==> !isnil(err) && len(piece) == 0
+//@     ensures dotdot: haskey(args, sub(match, 2, len(match) - 1)) && inlang(re_urlDoubleDotSegmentPattern, mapget(args, sub(match, 2, len(match) - 1))) ==> !isnil(err) && len(piece) == 0
+//@     ensures piece: isnil(err) ==> haskey(args, sub(match, 2, len(match) - 1)) && !inlang(re_urlDoubleDotSegmentPattern, mapget(args, sub(match, 2, len(match) - 1))) && seqeq(piece, encupto(false, mapget(args, sub(match, 2, len(match) - 1)), len(mapget(args, sub(match, 2, len(match) - 1))))) && inlang(QImg, piece)
+
+//@ func TrustedResourceURLWithParams(t TrustedResourceURL, params map[string]string) (r TrustedResourceURL)
+//@   serves C13
+//@   option uses C13.encoded_pair_shape
+//@   step 3: ite(exists(p, 0, len(t.str), t.str[p] == '#'), exists(p, 0, len(t.str), t.str[p] == '#' && forall(q, 0, p, t.str[q] != '#') && subview(url, t.str, 0, p) && subview(fragment, t.str, p, len(t.str))), sameview(url, t.str) && len(fragment) == 0)
+//@   step 5: ite(exists(p, 0, len(url), url[p] == '?'), ite(forall(q, 0, len(url) - 1, url[q] != '?'), len(sep) == 0, sep == "&"), sep == "?")
+//@   ensures unchanged: len(r.str) >= len(t.str)
+//@   loop 1
+//@     invariant forall(j, 0, len(stringParams), inlang(PairLang, at(stringParams, j)))
